@@ -4,7 +4,7 @@ import itertools
 from core import nats, exc_kind, safe_check
 
 PROPS = ('GambitV.Props.C02', 'GambitV.C02')
-TIE = [('GambitV.Tie.Metric', 'GambitV.Tie.Metric'), ('GambitV.Tie.PyMetric', 'GambitV.Tie.Py')]
+TIE = [('GambitV.Tie.Metric', 'GambitV.Tie.Metric'), ('GambitV.Tie.PyMetric', 'GambitV.Tie.Py'), ('GambitV.Tie.PyBindMetric', 'GambitV.Tie.Py')]
 RULE = ('pairs of sorted duplicate-free arrays x dtype pair (6x6) x both argument orders. Streams: exhaustive subset pairs of a '
         '6-element universe; structured pairs (empty, equal, disjoint, nested, interleaved, equal last elements, one side exhausted '
         'first, values at the top of each dtype range); random pairs of size <=5000; size-only pairs built from ranges (incl. the '
